@@ -251,6 +251,39 @@ type PtrMap struct {
 	X  *Inner
 }
 
+// Uni: field identifiers with non-ASCII letters (lengths in characters differ from lengths in octets)
+type Uni struct {
+	Größe   int32
+	Straße  string
+	Cañon名前 string
+	Z       int32
+}
+
+// NamedNode: self-referential AND custom-named
+type NamedNode struct {
+	V    int32
+	Next *NamedNode
+	Kids []*NamedNode
+}
+
+func (NamedNode) HessianCodecName() string { return "com.example.Node" }
+
+// KeyS: a struct used as a map key and nowhere else
+type KeyS struct {
+	A int32
+	B string
+}
+
+type MpStructKey struct {
+	M map[KeyS]string
+	N int32
+}
+
+// MpStrAny: a map field with interface{} values
+type MpStrAny struct {
+	M map[string]interface{}
+}
+
 // GF: graph node with two pointer slots and one filler field of every kind in front of them (C04)
 type GF struct {
 	Id  int32
@@ -373,6 +406,7 @@ var Types = []Entry{
 	e(Inner{}), e(Inner2{}), e(WithInner{}, "nested", "ptr"),
 	e(Embedded{}, "embedded"), e(Embedded2{}, "embedded"),
 	e(NamedS{}, "custom"), e(NamedHolder{}, "custom"), e(NamedListHolder{}, "custom", "custom-slice"), e(NamedMapHolder{}, "custom", "custom-map"), e(MapThenLists{}, "custom", "custom-map", "slice"), e(PadThen{}, "scalars"),
+	e(Uni{}, "scalars", "unicode-fields"), e(NamedNode{}, "recursive", "custom"), e(MpStructKey{}, "map", "struct-key"), e(MpStrAny{}, "map", "iface"),
 	e(DigestHolder{}, "slice", "named-bytes"), e(StampedHolder{}, "embedded", "embedded-time"), e(PtrMap{}, "map", "ptr-map"),
 	e(SlBool{}, "slice"), e(SlInt{}, "slice"), e(SlInt8{}, "slice"), e(SlInt16{}, "slice"), e(SlInt32{}, "slice"), e(SlInt64{}, "slice"),
 	e(SlUint{}, "slice"), e(SlUint16{}, "slice"), e(SlUint32{}, "slice"), e(SlUint64{}, "slice"),
